@@ -10,33 +10,33 @@ open WD WD.Poll
     the walk raise -/
 theorem walk_tolerant (recursive : Bool) (root : String) (l : Except Err (List VNode))
     (h : tolerantTop l = true) : (walk recursive root l).2 = none :=
-  Proofs.walk_tolerant recursive root l h
+  ProofsPoll.walk_tolerant recursive root l h
 
 /-- hence the snapshot constructor succeeds whenever the root itself can be stat'ed -/
 theorem snapshot_never_raises (recursive : Bool) (path : String) (st : Stat) (l : Except Err (List VNode))
     (h : tolerantTop l = true) : ∃ s, takeSnapshot recursive (.mk path (.ok st) l) = .ok s :=
-  Proofs.snapshot_never_raises recursive path st l h
+  ProofsPoll.snapshot_never_raises recursive path st l h
 
 /-- a snapshot of a fault-free tree contains exactly the reachable entries (each once), with the
     stat data the stat function returned -/
 theorem walk_complete (root : String) (nodes : List VNode) (h : faultFree nodes = true) :
     (walk true root (.ok nodes)).1.Perm (allEntries root nodes) ∧ (walk true root (.ok nodes)).2 = none :=
-  Proofs.walk_complete root nodes h
+  ProofsPoll.walk_complete root nodes h
 
 /-- non-recursive: the root's direct children only -/
 theorem nonrecursive_children (root : String) (nodes : List VNode) :
     walk false root (.ok nodes) = (ownEntries root nodes, none) :=
-  Proofs.nonrecursive_children root nodes
+  ProofsPoll.nonrecursive_children root nodes
 
 /-- an entry whose stat fails is absent; one whose stat succeeds is present with that stat -/
 theorem own_entries_iff (root : String) (nodes : List VNode) (p : Path) (st : Stat) :
     (p, st) ∈ ownEntries root nodes ↔ ∃ n l, VNode.mk n (.ok st) l ∈ nodes ∧ p = join root n :=
-  Proofs.own_entries_iff root nodes p st
+  ProofsPoll.own_entries_iff root nodes p st
 
 /-- the baseline is the tree at start() -/
 theorem baseline (recursive : Bool) (root : VNode) (em : Emitter) (h : Emitter.start recursive root = some em) :
     takeSnapshot recursive root = .ok em.snapshot ∧ em.stopped = false ∧ em.recursive = recursive :=
-  Proofs.baseline recursive root em h
+  ProofsPoll.baseline recursive root em h
 
 /-- each poll delivers the events of the diff between the previous and the new snapshot — one per
     entry of the eight lists, of the right class and paths, deletions before creations per kind — and
@@ -49,18 +49,18 @@ theorem poll_events (em : Emitter) (root : VNode) (new : Snap) (hs : em.stopped 
       (let l := (diff false em.snapshot new).lists em.snapshot new
        l.filesDeleted.length + l.filesModified.length + l.filesCreated.length + l.filesMoved.length +
        l.dirsDeleted.length + l.dirsModified.length + l.dirsCreated.length + l.dirsMoved.length) :=
-  Proofs.poll_events em root new hs hn
+  ProofsPoll.poll_events em root new hs hn
 
 /-- nothing changed, nothing delivered -/
 theorem quiet (em : Emitter) (root : VNode) (hs : em.stopped = false) (hwf : em.snapshot.WF)
     (hn : takeSnapshot em.recursive root = .ok em.snapshot) : totalEvents (em.poll root).2 = 0 :=
-  Proofs.quiet em root hs hwf hn
+  ProofsPoll.quiet em root hs hwf hn
 
 /-- root gone: exactly one DirDeletedEvent for the root, the emitter stops, and delivers nothing more -/
 theorem root_gone (em : Emitter) (root : VNode) (e : Err) (hs : em.stopped = false)
     (hn : takeSnapshot em.recursive root = .error e) :
     (em.poll root).2 = [[⟨.DirDeletedEvent, em.rootPath, "", false⟩]] ∧ (em.poll root).1.stopped = true ∧
     ∀ root', ((em.poll root).1.poll root').2 = [] ∧ ((em.poll root).1.poll root').1 = (em.poll root).1 :=
-  Proofs.root_gone em root e hs hn
+  ProofsPoll.root_gone em root e hs hn
 
 end WD.C10
